@@ -155,8 +155,207 @@ class _SmallForms(ast.NodeTransformer):
         return node
 
 
+def _truth(e):
+    """len(X) == 0 / len(X) > 0 / len(X) != 0 / len(X) >= 1 in a boolean position  ->  not X / X"""
+    if isinstance(e, ast.Compare) and len(e.ops) == 1 and isinstance(e.left, ast.Call) and \
+            isinstance(e.left.func, ast.Name) and e.left.func.id == 'len' and len(e.left.args) == 1 and \
+            isinstance(e.comparators[0], ast.Constant) and isinstance(e.comparators[0].value, int):
+        x, k, op = e.left.args[0], e.comparators[0].value, type(e.ops[0])
+        if (op, k) in ((ast.Eq, 0), (ast.Lt, 1), (ast.LtE, 0)):
+            return ast.copy_location(ast.UnaryOp(ast.Not(), x), e)
+        if (op, k) in ((ast.Gt, 0), (ast.NotEq, 0), (ast.GtE, 1)):
+            return x
+    return e
+
+
+class _SmallForms2(ast.NodeTransformer):
+    """  del a, b / del (a, b)                      ->  del a; del b
+         if len(x) == 0 / if len(x) > 0 (tests)     ->  if not x / if x
+         X = X - E, X = X + E (X a plain name)      ->  X -= E, X += E
+         super().m(...) in a class with one base B  ->  B.m(self, ...)
+         for x in iter(lambda: tuple(E), ()): BODY  ->  while True: x = tuple(E); if not x: break; BODY
+    """
+
+    def __init__(self):
+        self.base = []      # (single base name or None, receiver name) of the classes / methods we are inside
+
+    def visit_Delete(self, node):
+        flat = []
+        for t in node.targets:
+            flat.extend(t.elts if isinstance(t, (ast.Tuple, ast.List)) else [t])
+        if len(flat) > 1:
+            return [ast.fix_missing_locations(ast.copy_location(ast.Delete([t]), node)) for t in flat]
+        node.targets = flat
+        return node
+
+    def visit_If(self, node):
+        self.generic_visit(node)
+        node.test = _truth(node.test)
+        return node
+
+    def visit_While(self, node):
+        self.generic_visit(node)
+        node.test = _truth(node.test)
+        return node
+
+    def visit_IfExp(self, node):
+        self.generic_visit(node)
+        node.test = _truth(node.test)
+        return node
+
+    def visit_BoolOp(self, node):
+        self.generic_visit(node)
+        node.values = [_truth(v) for v in node.values]
+        return node
+
+    def visit_UnaryOp(self, node):
+        self.generic_visit(node)
+        if isinstance(node.op, ast.Not):
+            node.operand = _truth(node.operand)
+            if isinstance(node.operand, ast.UnaryOp) and isinstance(node.operand.op, ast.Not):
+                return node.operand.operand       # not not x in a test position is x
+        return node
+
+    def visit_Assign(self, node):
+        self.generic_visit(node)
+        v = node.value
+        if len(node.targets) == 1 and isinstance(node.targets[0], ast.Name) and isinstance(v, ast.BinOp) and \
+                isinstance(v.op, (ast.Add, ast.Sub)) and isinstance(v.left, ast.Name) and \
+                v.left.id == node.targets[0].id and \
+                not any(isinstance(x, ast.Name) and x.id == v.left.id for x in ast.walk(v.right)):
+            return ast.copy_location(ast.AugAssign(node.targets[0], v.op, v.right), node)
+        return node
+
+    def visit_ClassDef(self, node):
+        one = node.bases[0] if len(node.bases) == 1 and isinstance(node.bases[0], (ast.Name, ast.Attribute)) and \
+            not node.keywords else None
+        self.base.append(one)
+        self.generic_visit(node)
+        self.base.pop()
+        return node
+
+    def visit_FunctionDef(self, node):
+        recv = node.args.args[0].arg if node.args.args else None
+        static = any(isinstance(d, ast.Name) and d.id in ('staticmethod', 'classmethod') for d in node.decorator_list)
+        self.base.append(('fn', None if static else recv))
+        self.generic_visit(node)
+        self.base.pop()
+        return node
+
+    def visit_Call(self, node):
+        self.generic_visit(node)
+        f = node.func
+        if isinstance(f, ast.Attribute) and isinstance(f.value, ast.Call) and isinstance(f.value.func, ast.Name) and \
+                f.value.func.id == 'super' and len(self.base) >= 2 and isinstance(self.base[-1], tuple) and \
+                self.base[-1][1] and not isinstance(self.base[-2], tuple) and self.base[-2] is not None:
+            import copy as _copy
+            b = _copy.deepcopy(self.base[-2])
+            recv = ast.Name(self.base[-1][1], ast.Load())
+            new = ast.Call(ast.Attribute(b, f.attr, ast.Load()), [recv] + node.args, node.keywords)
+            return ast.fix_missing_locations(ast.copy_location(new, node))
+        return node
+
+    def visit_For(self, node):
+        self.generic_visit(node)
+        it = node.iter
+        if isinstance(it, ast.Call) and isinstance(it.func, ast.Name) and it.func.id == 'iter' and len(it.args) == 2 and \
+                isinstance(it.args[0], ast.Lambda) and not it.args[0].args.args and not node.orelse and \
+                isinstance(it.args[1], ast.Tuple) and not it.args[1].elts and \
+                isinstance(it.args[0].body, ast.Call) and isinstance(it.args[0].body.func, ast.Name) and \
+                it.args[0].body.func.id == 'tuple' and isinstance(node.target, ast.Name):
+            x = node.target.id
+            body = [ast.Assign([ast.Name(x, ast.Store())], it.args[0].body),
+                    ast.If(ast.UnaryOp(ast.Not(), ast.Name(x, ast.Load())), [ast.Break()], [])] + node.body
+            new = ast.While(ast.Constant(True), body, [])
+            return ast.fix_missing_locations(ast.copy_location(new, node))
+        return node
+
+
+def counting_loops(tree):
+    """i = A; while i < B: BODY; i += 1   (i not otherwise assigned in BODY, no continue in it, B not assigned in it)
+       ->  for i in range(A, B): BODY        (range(B) when A is 0)"""
+    n = 0
+    for lst in _all_stmt_lists(tree):
+        k = 0
+        while k + 1 < len(lst):
+            a, w = lst[k], lst[k + 1]
+            if isinstance(a, ast.Assign) and len(a.targets) == 1 and isinstance(a.targets[0], ast.Name) and \
+                    isinstance(w, ast.While) and not w.orelse and isinstance(w.test, ast.Compare) and \
+                    len(w.test.ops) == 1 and isinstance(w.test.ops[0], ast.Lt) and \
+                    isinstance(w.test.left, ast.Name) and w.test.left.id == a.targets[0].id and w.body and \
+                    isinstance(w.body[-1], ast.AugAssign) and isinstance(w.body[-1].op, ast.Add) and \
+                    isinstance(w.body[-1].target, ast.Name) and w.body[-1].target.id == a.targets[0].id and \
+                    isinstance(w.body[-1].value, ast.Constant) and w.body[-1].value.value == 1:
+                i = a.targets[0].id
+                body = w.body[:-1]
+                bound_names = {x.id for x in ast.walk(w.test.comparators[0]) if isinstance(x, ast.Name)}
+                stores = {x.id for s in body for x in ast.walk(s) if isinstance(x, ast.Name) and
+                          isinstance(x.ctx, (ast.Store, ast.Del))}
+
+                def has_continue(stmts):
+                    for s in stmts:
+                        if isinstance(s, ast.Continue):
+                            return True
+                        if isinstance(s, (ast.For, ast.While, ast.FunctionDef, ast.AsyncFunctionDef)):
+                            continue
+                        for fld in ('body', 'orelse', 'finalbody'):
+                            if has_continue(getattr(s, fld, []) or []):
+                                return True
+                        for h in getattr(s, 'handlers', []):
+                            if has_continue(h.body):
+                                return True
+                    return False
+                used_after = any(isinstance(x, ast.Name) and x.id == i for s in lst[k + 2:] for x in ast.walk(s))
+                if body and i not in stores and not (bound_names & stores) and not has_continue(body) and not used_after:
+                    start = a.value
+                    args = [w.test.comparators[0]] if isinstance(start, ast.Constant) and start.value == 0 else \
+                        [start, w.test.comparators[0]]
+                    new = ast.For(ast.Name(i, ast.Store()), ast.Call(ast.Name('range', ast.Load()), args, []), body, [])
+                    ast.copy_location(new, w)
+                    ast.fix_missing_locations(new)
+                    lst[k:k + 2] = [new]
+                    n += 1
+                    continue
+            k += 1
+    return n
+
+
+def fold_struct_constants(tree):
+    """NAME = struct.Struct(<literal format>) at module level, NAME.pack(..) / NAME.unpack(..) / NAME.size  ->
+    struct.pack(<format>, ..) / struct.unpack(<format>, ..) / struct.calcsize(<format>)"""
+    fmts = {}
+    for st in tree.body:
+        if isinstance(st, ast.Assign) and len(st.targets) == 1 and isinstance(st.targets[0], ast.Name) and \
+                isinstance(st.value, ast.Call) and ast.unparse(st.value.func) in ('struct.Struct', 'Struct') and \
+                len(st.value.args) == 1 and isinstance(st.value.args[0], ast.Constant):
+            fmts[st.targets[0].id] = st.value.args[0]
+    if not fmts:
+        return 0
+    n = 0
+
+    class T(ast.NodeTransformer):
+        def visit_Call(self, node):
+            nonlocal n
+            self.generic_visit(node)
+            f = node.func
+            if isinstance(f, ast.Attribute) and isinstance(f.value, ast.Name) and f.value.id in fmts and \
+                    f.attr in ('pack', 'unpack', 'pack_into', 'unpack_from'):
+                import copy as _copy
+                new = ast.Call(ast.Attribute(ast.Name('struct', ast.Load()), f.attr, ast.Load()),
+                               [_copy.deepcopy(fmts[f.value.id])] + node.args, node.keywords)
+                n += 1
+                return ast.fix_missing_locations(ast.copy_location(new, node))
+            return node
+    T().visit(tree)
+    return n
+
+
 def small_forms(tree):
-    return _SmallForms().visit(tree)
+    tree = _SmallForms().visit(tree)
+    tree = _SmallForms2().visit(tree)
+    fold_struct_constants(tree)
+    counting_loops(tree)
+    return tree
 
 
 def signature_table(trees):
